@@ -213,9 +213,13 @@ func checkLoopCarriedStructs(c *Ctx, rule string, fnNames []string) {
 					continue
 				}
 				l := innermostLoopOf(loops, st)
-				if l == nil || !derivesFromLoopVar(p, st.Val, l) {
+				if l == nil {
 					continue
 				}
+				// a field (re)written inside the loop is per-iteration state, whether it is the loop variable itself or
+				// something read for this element (amount, change flag): it must be written in every iteration that uses
+				// the struct, or the use sees what an earlier element left there
+
 				// the struct is declared outside the loop (carried across iterations)
 				if l.Blocks[al.Block()] {
 					continue
@@ -902,4 +906,172 @@ func checkTxRecordHashIsTxid(c *Ctx, rule string) {
 			fn.Name()+" does not set TxRecord.Hash to the transaction's id (MsgTx.TxHash) ("+otherwise+"): for a witness-serialized transaction the record is stored under its witness hash, which no spending transaction refers to")
 	}
 	c.Floor(rule, "exported constructors of TxRecord", n, 2)
+}
+
+// checkNoBulkOverwriteAfterElementWrite: the store's record codecs build a value in a local buffer: copy the old bytes
+// in, then patch single bytes (the spent / change flag bits, a height). The patch survives only if no copy INTO the
+// buffer from its start can still follow it: `newv[8] &^= spent; copy(newv, v)` restores the flag the line before
+// cleared (a rolled-back spender's credit stays flagged spent).
+func checkNoBulkOverwriteAfterElementWrite(c *Ctx, rule string) {
+	p := c.P
+	n := 0
+	rootBuf := func(v ssa.Value) ssa.Value {
+		for i := 0; i < 6; i++ {
+			switch x := stripConv(v).(type) {
+			case *ssa.Slice:
+				v = x.X
+				continue
+			case *ssa.IndexAddr:
+				v = x.X
+				continue
+			case *ssa.UnOp:
+				if x.Op == token.MUL {
+					if al, ok := x.X.(*ssa.Alloc); ok {
+						return al
+					}
+				}
+			}
+			break
+		}
+		return stripConv(v)
+	}
+	for _, fn := range p.FuncsIn("wtxmgr") {
+		if fn.Parent() != nil {
+			continue
+		}
+		for _, b := range fn.Blocks {
+			for _, ins := range b.Instrs {
+				st, ok := ins.(*ssa.Store)
+				if !ok {
+					continue
+				}
+				ia, ok := st.Addr.(*ssa.IndexAddr)
+				if !ok {
+					continue
+				}
+				if _, isK := constInt(ia.Index); !isK {
+					continue
+				}
+				buf := rootBuf(ia.X)
+				switch buf.(type) {
+				case *ssa.MakeSlice, *ssa.Alloc:
+				default:
+					continue
+				}
+				// only buffers that are also filled by a copy in this function (the copy-then-patch idiom)
+				copied := false
+				for _, cc := range callsNamed(fn, "copy") {
+					if len(cc.Call.Args) == 2 && rootBuf(stripConv(cc.Call.Args[0])) == buf {
+						copied = true
+					}
+				}
+				if !copied {
+					continue
+				}
+				n++
+				q := &PathQuery{Fn: fn}
+				var at ssa.Instruction
+				q.Target = func(i ssa.Instruction, _ *ssa.BasicBlock) bool {
+					call, ok := i.(*ssa.Call)
+					if !ok || calleeShort(&call.Call) != "copy" || len(call.Call.Args) != 2 {
+						return false
+					}
+					dst := stripConv(call.Call.Args[0])
+					if sl, ok := dst.(*ssa.Slice); ok && sl.Low != nil {
+						if k, isK := constInt(sl.Low); !isK || k != 0 {
+							return false // a copy into a later part of the buffer
+						}
+					}
+					if rootBuf(dst) != buf {
+						return false
+					}
+					at = i
+					return true
+				}
+				hits := q.From(st)
+				detail := ""
+				if len(hits) > 0 {
+					detail = fnName(fn) + " patches a byte of the value it is building and then copies into that buffer from its start (" + p.Pos(at.Pos()) + "): the copy overwrites the patch (a cleared spent/change flag is restored from the old value)"
+				}
+				c.Check(rule, "patched-byte-not-overwritten-by-later-copy:"+fn.Name(), st.Pos(), len(hits) == 0, detail)
+			}
+		}
+	}
+	c.Floor(rule, "single-byte patches of locally built record values", n, 1)
+}
+
+// checkBoundsCheckNamesIndexedCollection: where a stored index is validated against the length of a collection before it
+// is used ("saved debit index exceeds number of inputs"), the collection whose length is tested is the one the index
+// selects from. Testing an input index against the number of OUTPUTS rejects valid records (a 3-input, 1-output sweep
+// cannot be reported once mined) and lets invalid ones through.
+func checkBoundsCheckNamesIndexedCollection(c *Ctx, rule string, fnNames []string) {
+	p := c.P
+	n := 0
+	lenOf := func(v ssa.Value) string {
+		call, ok := stripConv(v).(*ssa.Call)
+		if !ok || calleeShort(&call.Call) != "len" || len(call.Call.Args) != 1 {
+			return ""
+		}
+		return describeValue(call.Call.Args[0])
+	}
+	for _, fn := range wtxRegion(c, rule, fnNames) {
+		for _, b := range fn.Blocks {
+			iff, ok := b.Instrs[len(b.Instrs)-1].(*ssa.If)
+			if !ok {
+				continue
+			}
+			bo, ok := iff.Cond.(*ssa.BinOp)
+			if !ok {
+				continue
+			}
+			var idx ssa.Value
+			coll := ""
+			if l := lenOf(bo.Y); l != "" {
+				idx, coll = bo.X, l
+			} else if l := lenOf(bo.X); l != "" {
+				idx, coll = bo.Y, l
+			}
+			if coll == "" {
+				continue
+			}
+			// an index of a debit record counts inputs, an index of a credit record counts outputs
+			for _, o := range (&Slicer{P: p, ThroughFieldsOfAllocs: false}).Origins(idx) {
+				tn, f, _, okf := fieldOf(o)
+				if !okf || f != "Index" {
+					continue
+				}
+				want := ""
+				switch {
+				case strings.Contains(tn, "Debit"):
+					want = "TxIn"
+				case strings.Contains(tn, "Credit"):
+					want = "TxOut"
+				}
+				if want == "" {
+					continue
+				}
+				n++
+				c.Check(rule, "record-index-bounded-by-own-list:"+fn.Name()+"/"+tn, bo.Pos(), strings.HasSuffix(coll, want) || strings.Contains(coll, want),
+					fmt.Sprintf("%s validates the index of a %s against len(%s), expected the transaction's %s list: a record of a transaction with more inputs than outputs (or the reverse) is rejected as corrupt, and the transaction can no longer be reported", fn.Name(), tn, coll, want))
+			}
+			idxRoot := stripConv(idx)
+			// uses of the same index value to select an element, in blocks this test dominates
+			for _, b2 := range fn.Blocks {
+				if !b.Dominates(b2) || b2 == b {
+					continue
+				}
+				for _, ins := range b2.Instrs {
+					ia, ok := ins.(*ssa.IndexAddr)
+					if !ok || stripConv(ia.Index) != idxRoot {
+						continue
+					}
+					n++
+					sel := describeValue(ia.X)
+					c.Check(rule, "bounds-check-names-indexed-collection:"+fn.Name(), ia.Pos(), sel == coll,
+						fmt.Sprintf("%s validates an index against len(%s) and then uses it to select from %s: valid records are rejected (and invalid ones accepted) whenever the two collections differ in length", fn.Name(), coll, sel))
+				}
+			}
+		}
+	}
+	c.Floor(rule, "validated index uses", n, 2)
 }
